@@ -60,7 +60,7 @@ def run(ck, tier, seed):
         vlib.absorb(ck, h)
         if h.summary:
             ck.traces += h.summary["extra"]["runs"]
-            ck.extra["impl"]["machine/" + cfg] = dict(h.summary["extra"], model_drift=h.summary["drift"])
+            ck.extra.setdefault("impl", {})["machine/" + cfg] = dict(h.summary["extra"], model_drift=h.summary["drift"])
     # second clause: both interpreters shape the corpus identically (same compiler, same flags)
     js = corpus.jobs(maxlines=60 if tier == "quick" else 100000, chunk=0)
     js += corpus.jobs(maxlines=40 if tier == "quick" else 400, chunk=24, dirs=[0, 1, 3], with_fonttests=True)
@@ -88,7 +88,7 @@ def run(ck, tier, seed):
                 ck.violation("call-threaded and direct-threaded interpreters shape %s segment %d differently (%s vs %s)" % (x["id"], x["seg"], a, b),
                              {"why": "interpreter builds disagree", "id": x["id"], "seg": x["seg"], "builds": [a, b]})
         ck.traces += len(outs[a])
-        ck.extra["impl"]["corpus %s=%s" % (a, b)] = {"segments": len(outs[a]), "differing": ndiff}
+        ck.extra.setdefault("impl", {})["corpus %s=%s" % (a, b)] = {"segments": len(outs[a]), "differing": ndiff}
     ck.assumptions += ["opcode specification = doc/OpCodes.adoc as formalised in spec/Machine.tla on 32-bit two's complement; "
                        "BITOR/BITAND numbering follows src/inc/Machine.h (see DESIGN.md 7.2 F10)",
                        "cross-interpreter comparison uses the same compiler and flags for both builds"]
